@@ -89,8 +89,13 @@ def run(ctx):
             scanner.rule_S3(sc, rep)
             scanner.rule_S4(sc, rep)
             scanner.rule_S5(sc, rep)
+            scanner.rule_S6(sc, rep)
         rep.guarded("scanner", scanner.MOD + name, scan)
     rep.guarded("reach", "adapter::strip", lambda: rule_reach(facts, rep))
+    # the one-shot stripper fed several slices: the UTF-8 decoder travels with the escape state, or a character cut between two
+    # slices loses its tail
+    from rules import C03
+    rep.guarded("between-slices", "anstream::adapter::strip::StrippedBytes", lambda: C03.rule_between_slices(facts, rep))
     # the never-colour stream's clause: what it delivers is the adapter's output only if the short-write path replays correctly
     from rules import stripstream
     # of the strip stream's short-write rules only W1 (the state replayed matches the bytes reported as consumed) belongs to this
@@ -98,7 +103,7 @@ def run(ctx):
     import core
     w1 = core.Filtered(rep, lambda rule, anchor, instance: rule == "W1")
     rep.guarded("W1", "anstream::strip::write", lambda: stripstream.rule_W1_W3(facts, w1))
-    for r, n in (("table", 16), ("keep", 17), ("S1", 7), ("S2", 8), ("S3", 3), ("S4", 3), ("S5", 12), ("reach", 18), ("W1", 4)):
+    for r, n in (("table", 16), ("keep", 17), ("S1", 7), ("S2", 8), ("S3", 3), ("S4", 3), ("S5", 12), ("S6", 5), ("between-slices", 1), ("reach", 18), ("W1", 4)):
         rep.floor(r, n)
 
 
